@@ -4,6 +4,7 @@
 //     (the library's hash is the given random oracle), all honest parties must output the same signature;
 // (b) the library verifiers against the reference on the range-boundary catalogue.
 #include "parties.hh"
+#include <map>
 #include "mutate.hh"
 using namespace vf;
 const char *vf::PROPERTY = "C16";
@@ -105,6 +106,42 @@ VF_SUB(threshold_dss_sign, 12, 400) {
 static std::vector<std::pair<std::string, Z> > boundary_catalogue(const Grp &G, const Z &v) {
   return {{"0", Z(0)}, {"1", Z(1)}, {"q-1", G.q - 1}, {"q", G.q}, {"q+1", G.q + 1}, {"v+q", v + G.q}, {"v-q", v - G.q}, {"-v", -v}, {"2^|q|", Z(1) << mpz_sizeinbase(G.q.get_mpz_t(), 2)}, {"2^2048", Z(1) << 2048}, {"2^2049", Z(1) << 2049}, {"v", v}, {"v+1", v + 1}};
 }
+// Threshold DSS with a REDUCED SIGNER SET: the key is generated by n parties; n - 1 of them sign over a network of their own,
+// re-indexed 0..n-2, with the index maps the class takes for that purpose (as tests/t-astc2.cc does), optionally after a refresh
+// among the same subset.  <= t members may run the library's faulty switch.
+VF_SUB(threshold_dss_reduced_signer_set, 10, 400) {
+  Grp G = pick_grp(ctx); const size_t n = 5, t = 1, n2 = n - 1; size_t dropped = ctx.c.index(n); std::string mcls; Z m = pick_message(ctx, G, mcls); bool do_refresh = ctx.c.prob(1, 3);
+  std::vector<size_t> members; for (size_t i = 0; i < n; i++) if (i != dropped) members.push_back(i);
+  size_t faulty = ctx.c.prob(1, 2) ? members[ctx.c.index(n2)] : n; // at most t = 1 member with the library's faulty switch in the signing phase
+  std::vector<bool> present(n, true); Cluster cl(n, t, present); detsim::Net uni2(n2), bc2(n2); size_t done2 = 0, done3 = 0;
+  std::vector<CanettiGennaroJareckiKrawczykRabinDSS *> dss(n, nullptr); std::vector<bool> gret(n, false), sret(n, false), rret(n, true); std::vector<Z> R(n), S(n);
+  std::ostringstream d; d << "threshold_dss_reduced n=" << n << " t=" << t << " signers=all-but-P" << dropped << " m=" << mcls << (do_refresh ? " refresh-among-signers-first" : "") << " faults:" << (faulty < n ? " P" + std::to_string(faulty) + ":library-switch(signing)" : " none");
+  bool simok = cl.run(ctx, [&](PartyEnv &e) {
+    dss[e.i] = new CanettiGennaroJareckiKrawczykRabinDSS(n, t, e.i, G.p.get_mpz_t(), G.q.get_mpz_t(), G.g.get_mpz_t(), G.h.get_mpz_t(), G.F, G.G, true, false);
+    e.rbc->setID("c16-dssr-generate"); gret[e.i] = dss[e.i]->Generate(e.aiou, e.rbc, e.err, false); e.rbc->unsetID(); cl.barrier(e, 1);
+    if (e.i == dropped) return;
+    size_t k = 0; for (size_t z = 0; z < n2; z++) if (members[z] == e.i) k = z;
+    detsim::SimNet a2u(n2, k, &uni2, cl.timeout), a2b(n2, k, &bc2, cl.timeout); CachinKursawePetzoldShoupRBC rbc2(n2, t, k, &a2b, aiounicast::aio_scheduler_roundrobin, cl.timeout);
+    std::map<size_t, size_t> idx2dkg, dkg2idx; for (size_t z = 0; z < n2; z++) { idx2dkg[z] = members[z]; dkg2idx[members[z]] = z; }
+    auto serve = [&](size_t &cnt) { cnt++; mpz_t tmp; mpz_init(tmp); size_t l; while (cnt < n2) rbc2.Deliver(tmp, l, aiounicast::aio_scheduler_roundrobin, 0); mpz_clear(tmp); };
+    if (do_refresh) { rbc2.setID("c16-dssr-refresh"); rret[e.i] = dss[e.i]->Refresh(n2, k, idx2dkg, dkg2idx, &a2u, &rbc2, e.err, false); rbc2.unsetID(); serve(done3); }
+    rbc2.setID("c16-dssr-sign"); sret[e.i] = dss[e.i]->Sign(n2, k, m.get_mpz_t(), R[e.i].get_mpz_t(), S[e.i].get_mpz_t(), idx2dkg, dkg2idx, &a2u, &rbc2, e.err, e.i == faulty); rbc2.unsetID(); serve(done2); });
+  ctx.desc << d.str() << " vtime=" << vf::vnow; ctx.label("reduced-signer-set"); ctx.label(faulty < n ? "with-faults" : "fault-free"); ctx.label("m=" + mcls); if (do_refresh) ctx.label("refresh");
+  ctx.nontrivial(d.str() + std::to_string(cl.bc.sent + bc2.sent));
+  if (!simok) ctx.fail("tsig/dss-reduced/simulation-deadlock-or-time-budget", d.str() + cl.task_errors());
+  bool first = true; Z r0, s0;
+  for (size_t i : members) { if (ctx.failed) break; if (i == faulty) continue; Z y(dss[i]->y);
+    bool qual_shrunk = (dss[i]->dkg && dss[i]->dkg->x_rvss && dss[i]->dkg->x_rvss->QUAL.size() != dss[i]->dkg->QUAL.size()) || cl.env[i]->err.str().find("party erased from QUAL") != std::string::npos;
+    std::string sfx = qual_shrunk ? "/party-disqualified-after-share-phase" : "";
+    if (!gret[i]) { ctx.fail("tsig/dss-reduced/honest-party-fails-key-generation", "party " + std::to_string(i) + " " + d.str()); break; }
+    if (!rret[i]) { ctx.fail("tsig/dss-reduced/honest-party-fails-refresh" + sfx, "party " + std::to_string(i) + " " + d.str() + " log: " + cl.env[i]->err.str().substr(0, 900)); break; }
+    if (!sret[i]) { ctx.fail("tsig/dss-reduced/honest-party-fails-signing" + sfx, "party " + std::to_string(i) + " " + d.str() + " log: " + cl.env[i]->err.str().substr(0, 900) + cl.task_errors()); break; }
+    Z mm = m; if (!ref_dsa(G, y, mm, R[i], S[i])) { ctx.fail("tsig/dss-reduced/output-fails-reference-verification" + sfx, "party " + std::to_string(i) + " r=" + vf::S(R[i]) + " s=" + vf::S(S[i]) + " " + d.str()); break; }
+    if (!dss[i]->Verify(m.get_mpz_t(), R[i].get_mpz_t(), S[i].get_mpz_t())) { ctx.fail("tsig/dss-reduced/library-verifier-refuses-own-output", d.str()); break; }
+    if (first) { r0 = R[i]; s0 = S[i]; first = false; } else if (R[i] != r0 || S[i] != s0) { ctx.fail("tsig/dss-reduced/honest-parties-output-different-signatures", d.str()); break; } }
+  for (auto x : dss) delete x;
+}
+
 VF_SUB(schnorr_verifier_matches_reference, 900, 20000) {
   Grp G = pick_grp(ctx); Z x = zrand_below(ctx, G.q - 1) + 1, y = zpowm(G.g, x, G.p); std::string mcls; Z m = pick_message(ctx, G, mcls);
   static GennaroJareckiKrawczykRabinNTS *nts = nullptr; static std::string gkey; std::string k = z62(G.p) + z62(G.h);
